@@ -379,7 +379,7 @@ func (c *Cluster) listOffsets(b *Broker, r *Req) rc.Msg {
 				code = codes[c.S.T.Intn("fault", len(codes))]
 			}
 			if c.ListOffsetsErr != nil && code == ErrNone {
-				code = c.ListOffsetsErr(name, idx)
+				code = c.ListOffsetsErr(name, idx, ts)
 			}
 			if code != ErrNone {
 				pm["error_code"] = code
